@@ -344,18 +344,21 @@ Definition mgr_receive (s0 : fstate) (t : N) (data : rdata) : fstate * fout :=
 
 (* `self.retriers.retain(..)`: remove_if_failed (drops a failed retrier from WTClient::retriers), keep the
    startable / running / idle ones *)
-Definition keep_retrier (kv : N * retrier) : bool :=
-  should_start (snd kv) || is_running (r_status (snd kv)) || is_idle (r_status (snd kv)).
-Definition failed_keys (s : fstate) : list N := map fst (filter (fun kv => is_failed (r_status (snd kv))) (f_mgr s)).
+Definition keep_retrier (r : retrier) : bool :=
+  should_start r || is_running (r_status r) || is_idle (r_status r).
+Definition retrier_failed (s : fstate) (k : N) : bool :=
+  match aget (f_mgr s) k with Some r => is_failed (r_status r) | None => false end.
+Definition retrier_kept (s : fstate) (k : N) : bool :=
+  match aget (f_mgr s) k with Some r => keep_retrier r | None => false end.
 Definition retain_state (s : fstate) : fstate :=
   let c := f_c s in
-  set_mgr (set_c s (with_retriers c (aretain (fun k => negb (memN k (failed_keys s))) (c_retriers c))))
-          (filter keep_retrier (f_mgr s)).
+  set_mgr (set_c s (with_retriers c (aretain (fun k => negb (retrier_failed s k)) (c_retriers c))))
+          (aretain (retrier_kept s) (f_mgr s)).
 
 (* the Empty branch *)
 Definition mgr_sweep (s : fstate) (elapsed : list N) : fstate * fout :=
   (* remove_if_failed needs the lock only for a failed retrier *)
-  if poisoned s && negb (match failed_keys s with [] => true | _ => false end)
+  if poisoned s && existsb (fun kv => is_failed (r_status (snd kv))) (f_mgr s)
   then (kill_mgr s, OPanic (SClient Site_poisoned)) else
   let s1 := retain_state s in
   let todo := existsb (fun kv => should_start (snd kv) || (is_idle (r_status (snd kv)) && memN (fst kv) elapsed)) (f_mgr s1) in
@@ -622,20 +625,29 @@ Definition owed (s : fstate) (t l : N) : bool :=
 Definition owed_db (s : fstate) (d : db) (t l : N) : bool :=
   existsb (pairN_eqb (t, l)) (f_due s) && tower_row d t && negb (exists_misbehaving_proof d t).
 
-(* the guard of the universal theorems: registertower is not used (a) to register again with a tower the client has
-   abandoned while the retry manager still tracks data for it (a retrier with a non-empty set or a queued message),
-   (b) against a tower already proven misbehaving.  Both are genuine defects of the code (see Properties/C05.v, C14.v). *)
+(* the guards of the universal theorems: registertower is not used (fresh_ok) to register again with a tower the
+   client has abandoned while the retry manager still tracks data for it (a retrier with a non-empty set or a queued
+   message), (flagged_ok) against a tower already proven misbehaving.  Outside them the statements are REFUTED by
+   genuine defects of the code (see Properties/C05.v, C14.v). *)
 Definition tracked (s : fstate) (t : N) : list N :=
   retrier_pending s t ++ flat_map (fun m => if N.eqb (fst m) t then rdata_set (snd m) else []) (f_chan s).
-Definition op_ok (s : fstate) (o : fop) : bool :=
+Definition fresh_ok (s : fstate) (o : fop) : bool :=
   match o with
-  | FRegister t _ =>
-    (amem (c_towers (f_c s)) t || match tracked s t with [] => true | _ => false end) &&
-    negb (exists_misbehaving_proof (c_db (f_c s)) t)
+  | FRegister t _ => amem (c_towers (f_c s)) t || match tracked s t with [] => true | _ => false end
   | _ => true
+  end.
+Definition flagged_ok (s : fstate) (o : fop) : bool :=
+  match o with
+  | FRegister t _ => negb (exists_misbehaving_proof (c_db (f_c s)) t)
+  | _ => true
+  end.
+Fixpoint ops_fresh (s : fstate) (ops : list fop) : bool :=
+  match ops with
+  | [] => true
+  | o :: rest => fresh_ok s o && ops_fresh (fst (fstep s o)) rest
   end.
 Fixpoint ops_ok (s : fstate) (ops : list fop) : bool :=
   match ops with
   | [] => true
-  | o :: rest => op_ok s o && ops_ok (fst (fstep s o)) rest
+  | o :: rest => fresh_ok s o && flagged_ok s o && ops_ok (fst (fstep s o)) rest
   end.
